@@ -10,6 +10,7 @@ META = {
     "level": "Decides: (R1) the filter builders never call a string method on a list-typed local; (R2) every CONFIG_PROTECT / CONFIG_PROTECT_MASK glob is directory-anchored: '/' is appended AFTER normalisation, in all three construction sites; (R3) the incoming file is compared with the pending ._cfgNNNN_ file itself, each protected file has its own list of pending updates, the chosen number reuses an identical pending update or exceeds every existing number, and every renamed entry is restored to its real name afterwards; (R4) on uninstall a protected file whose checksum differs is dropped from the uninstall set, and a file that vanished mid-scan only skips itself (error handling inside the loop); (R5) trigger-side pattern builders join the engine offset into root-relative configured paths. Does NOT decide concrete env.d configurations.",
     "note": "cset locations are offset-prefixed when the engine has an offset (merge/engine.py generate_offset_cset)",
 }
+META["technique"] += "; " + 'generic pack G on the anchored files (optional-flag shift, closures outliving a loop iteration, single-pass iterables consumed twice, %-templates built from data, in-place writes to class-level / memoised objects, generators mutating what they yielded, memo keys that are projections)'
 MOD = "pkgcore.ebuild.triggers"
 STR_METHODS = {"rstrip", "lstrip", "strip", "endswith", "startswith", "split", "lower", "upper", "replace", "format", "join"}
 
